@@ -149,7 +149,7 @@ func VerifH_C04_notify() {
 			b := c.newBlock(parent, true)
 			b.V2 = &types.V2BlockData{Height: ps.Index.Height + 1}
 			absW.validated[b.Nonce] = true // validated by the caller, by contract
-			ps = stubApplyHeader(ps, b.Header(), b.Timestamp)
+			ps, _ = stubApplyBlock(ps, b, consensus.V1BlockSupplement{}, b.Timestamp)
 			blocks = append(blocks, b)
 			states = append(states, ps)
 			parent = b.Nonce
